@@ -21,9 +21,9 @@
    for utf-8 (no decoder) and for any charmap (decoder): stack_lines_chunk_invariant,
    stack_chunk_invariant_edi, stack_chunk_invariant_enc_lines, stack_chunk_invariant_enc_edi.
    Guards: the pure function is defined (= Ok _), which excludes exactly (a) known finding F22
-   (line reader, lines_chunk_refuted) and (b) its scanner analogue: exactly MaxScanTokenSize
-   bytes without a delimiter at the very end of the input (not reachable below omniparser's
-   bufio.Reader.Read, which never hands data and error over together).
+   (line reader, lines_chunk_refuted) and (b) its scanner analogue, known finding F23: exactly
+   MaxScanTokenSize (65536) bytes without a delimiter at the very end of the input
+   (scan_chunk_refuted; replayed from replays/corpus/C09/F23-tail65536.json).
    BytesReplacingReader is also proved in general (any non-empty search token, any replacement:
    brrg_reader_ok, a_replace = leftmost non-overlapping replacement); the one-byte instances are
    its corollaries.  encoding/csv|json|xml are assumed chunk-invariant. *)
@@ -190,6 +190,14 @@ Theorem scan_all_spec : forall St sread Rep wt lead, reader_ok St sread Rep wt l
   a_scan_all find dlen incl eofd fuel data t = Ok res ->
   scan_all St sread find dlen incl eofd gas fuel sc x = Ok res.
 Proof. exact scan_all_spec. Qed.
+
+(* Without the guard the scanner statement is false (known finding F23). *)
+Theorem scan_chunk_refuted :
+  exists cs cs' wl wl' gas fuel,
+    concat cs = concat cs' /\ runs_ok cs = true /\ runs_ok cs' = true /\
+    scan_all source io_read (byte_index_with_esc [x7e] []) 1 true false gas fuel (mkScan 0 [] 128 None) (mkSrc cs wl TEof) <>
+    scan_all source io_read (byte_index_with_esc [x7e] []) 1 true false gas fuel (mkScan 0 [] 128 None) (mkSrc cs' wl' TEof).
+Proof. exact scan_chunk_refuted. Qed.
 
 (* ... which bytes.Index and strs.ByteIndexWithEsc (any release character sequence) are, for every
    delimiter that starts with a complete UTF-8 sequence. *)
